@@ -95,7 +95,12 @@ class State:
         return r
 
     def deref(self, v):
-        return self.heap[v.id] if isinstance(v, Ref) else v
+        if isinstance(v, Ref):
+            try:
+                return self.heap[v.id]
+            except KeyError:
+                raise Unsupported(f"stale heap reference {v!r} (object created on another path)")
+        return v
 
     def assume(self, c):
         if c is True:
@@ -499,6 +504,9 @@ class Interp:
                 return self.lib.ew(st, T.lnot, v, sort="bool")
             raise Unsupported("unary op on array")
         if isinstance(v, Obj):
+            r = self.lib.obj_binop(self, st, "ufunc:" + {"USub": "neg", "Invert": "invert", "UAdd": "pos"}[type(node.op).__name__], v, None)
+            if r is not NotImplemented:
+                return r
             name = {"USub": "__neg__", "Invert": "__invert__", "UAdd": "__pos__"}[type(node.op).__name__]
             return self.call_method(st, v, name, [], {})
         if isinstance(node.op, ast.USub) and T.is_val(v):
@@ -660,6 +668,8 @@ class Interp:
         if isinstance(o, Obj):
             if name in o.fields:
                 return o.fields[name]
+            if name == "__class__" and isinstance(o.cls, ClassVal):
+                return o.cls
             r = self.lib.obj_getattr(self, st, obj, o, name)
             if r is not NotImplemented:
                 return r
